@@ -103,6 +103,13 @@ func NewUpstreamReverseProxy(config *UpstreamConfig, signer *RequestSigner) (htt
 			// Strict-Transport-Security is set by the requireHTTPS middleware; an upstream
 			// must not be able to replace or weaken it either.
 			resp.Header.Del("Strict-Transport-Security")
+			// Announced trailers are merged into the response header map after the body (and
+			// copied over the proxy's own headers by the timeout handler), so drop the
+			// protected names there as well.
+			for key := range securityHeaders {
+				resp.Trailer.Del(key)
+			}
+			resp.Trailer.Del("Strict-Transport-Security")
 
 			return nil
 		},
